@@ -280,6 +280,12 @@ func (ps *PartSet) AddPart(part *Part) (bool, error) {
 		return false, nil
 	}
 
+	// The proof must be for this part's own position in a tree of the header's size:
+	// the root alone binds neither the index nor the number of leaves.
+	if part.Proof.Index != int64(part.Index) || part.Proof.Total != int64(ps.total) {
+		return false, ErrPartSetInvalidProof
+	}
+
 	// Check hash proof
 	if part.Proof.Verify(ps.Hash(), part.Bytes) != nil {
 		return false, ErrPartSetInvalidProof
